@@ -303,7 +303,7 @@ theorem chunks_spec {p : PalPlan} {newPal : Bool} {wv zv : List Nat} {g : GrcCfg
     intro hu
     have := hs.zlen hu
     refine ⟨by simp only [sliceCfg]; exact this.symm, ?_, ?_⟩ <;> split at this <;> omega
-  obtain ⟨bits, D', h1, h2, h3, h4⟩ := chunkLoop_encLoop hc (loopFuel wv zv) _ {} [] 0 (inv_init _ wv zv)
+  obtain ⟨bits, _, h1, _⟩ := chunkLoop_encLoop hc (loopFuel wv zv) _ {} [] 0 (inv_init _ wv zv)
     (by have := pot_le_sum g.wDiv wv; have := pot_le_sum g.zDiv zv
         simp only [sliceCfg, loopFuel]; omega)
   refine ⟨bits, h1, fun rest pos => ?_⟩
